@@ -2270,6 +2270,12 @@ type responseWriterState struct {
 	sentContentLen int64 // non-zero if handler set a Content-Length header
 	wroteBytes     int64
 
+	// abandonedWrite is set once a DATA write returned before its frame was
+	// written (stream closed or client gone). The frame may still be queued
+	// or in flight and reference bw's buffer, so this state must not be
+	// recycled.
+	abandonedWrite bool
+
 	closeNotifierMu sync.Mutex // guards closeNotifierCh
 	closeNotifierCh chan bool  // nil until first used
 }
@@ -2379,6 +2385,7 @@ func (rws *responseWriterState) writeChunk(p []byte) (n int, err error) {
 	if len(p) > 0 || endStream {
 		// only send a 0 byte DATA frame if we're ending the stream.
 		if err := rws.conn.writeDataFromHandler(rws.stream, p, endStream); err != nil {
+			rws.abandonedWrite = true
 			return 0, err
 		}
 	}
@@ -2578,6 +2585,12 @@ func (w *responseWriter) handlerDone() {
 	rws.handlerDone = true
 	w.Flush()
 	w.rws = nil
+	if rws.abandonedWrite {
+		// A frame which points into rws.bw's buffer may still be in the
+		// hands of the frame writer: do not hand the buffer to another
+		// request.
+		return
+	}
 	rws.Reset()
 	responseWriterStatePool.Put(rws)
 }
